@@ -348,6 +348,58 @@ func runC07(c *ev.Ctx) {
 	addReal("Period", nPeriod)
 	addReal("PowerOn", nPower)
 	addReal("Factory", nFactory)
+	// history chains: run A, then B, in ONE process. B is a stream the rule accepts (or sits exactly on
+	// the threshold); A leaves whatever state it leaves (failed counts, non-uniform rows, read error,
+	// run through the Fast variant). Decides that a verdict depends on its own stream only.
+	{
+		r := gen.NewRng(gen.Mix(seed, 7777))
+		kinds := []string{"allfail", "tail-items-nonuniform", "fault@0", "fault-mid", "perfect"}
+		nChain := 0
+		for _, a := range allWFs {
+			for _, b := range seqWFs {
+				for ki, kind := range kinds {
+					if !c.Thorough() && (workflows[a].S == 50 || workflows[b].S == 50) && ki%2 == 1 {
+						continue
+					}
+					wa, wb := workflows[a], workflows[b]
+					nChain++
+					chain := fmt.Sprintf("chain%d", nChain)
+					ma := baseMatrix(r, wa.S, wa.Items)
+					var fault *mon.FaultPlan
+					switch kind {
+					case "allfail":
+						for i := 0; i < wa.Items; i++ {
+							setPassCount(r, ma, i, 0)
+							for j := range ma {
+								ma[j][i].Q = 0
+							}
+						}
+					case "tail-items-nonuniform":
+						for i := wa.Items - 3; i < wa.Items; i++ {
+							for j := range ma {
+								ma[j][i].Q = 0.95
+							}
+						}
+					case "fault@0":
+						fault = &mon.FaultPlan{Offset: 0, Kind: "eof", Sticky: true}
+					case "fault-mid":
+						fault = &mon.FaultPlan{Offset: int64(wa.B*(wa.S/2) + 17), Kind: "custom", Sticky: true}
+					}
+					id++
+					scns = append(scns, Scn{ID: id, WF: a, Stream: Stream{Kind: "matrix", Seed: r.U64(), Matrix: ma}, Stub: true, Chunk: mon.ChunkPlan{Kind: "whole"}, Fault: fault, Chain: chain, Note: fmt.Sprintf("%s step1 %s", chain, kind)})
+					mb := baseMatrix(r, wb.S, wb.Items)
+					if ki%2 == 0 {
+						for i := 0; i < wb.Items; i++ {
+							setPassCount(r, mb, i, oracle.Threshold(wb.S))
+						}
+					}
+					id++
+					scns = append(scns, Scn{ID: id, WF: b, Stream: Stream{Kind: "matrix", Seed: r.U64(), Matrix: mb}, Stub: true, Chunk: mon.ChunkPlan{Kind: "whole"}, Chain: chain, Note: fmt.Sprintf("%s step2 after %s(%s): stream the rule accepts", chain, a, kind)})
+				}
+			}
+		}
+		c.Count("history_chains", int64(nChain))
+	}
 	// heavy real runs first so they overlap with the stub sweep
 	sort.SliceStable(scns, func(a, b int) bool { return !scns[a].Stub && scns[b].Stub })
 	var heavy, light []Scn
@@ -362,7 +414,7 @@ func runC07(c *ev.Ctx) {
 	go func() {
 		resCh <- runScenarios(heavy, runOpts{Parallel: 6, PerScn: 200 * time.Second, Label: "c07h"})
 	}()
-	res := runScenarios(light, runOpts{Parallel: 12, PerScn: 2 * time.Second, Label: "c07"})
+	res := runScenarios(light, runOpts{Parallel: 12, PerScn: 2 * time.Second, Label: "c07", Shuffle: gen.Mix(seed, 70707)})
 	for k, v := range <-resCh {
 		res[k] = v
 	}
@@ -376,7 +428,7 @@ func runC07(c *ev.Ctx) {
 			c.Inconclusive("no result for scenario " + sc.Note)
 			continue
 		}
-		nontriv := !sc.Stub || strings.Contains(sc.Note, "uniformity") || strings.Contains(sc.Note, "fails")
+		nontriv := !sc.Stub || strings.Contains(sc.Note, "uniformity") || strings.Contains(sc.Note, "fails") || strings.Contains(sc.Note, "step2")
 		if strings.Contains(sc.Note, "passcount=") {
 			var i, cnt, T int
 			fmt.Sscanf(sc.Note, "item%d passcount=%d (T=%d)", &i, &cnt, &T)
@@ -397,6 +449,13 @@ func runC07(c *ev.Ctx) {
 			} else {
 				c.Count("model_verdict_false", 1)
 			}
+		}
+		if sc.Fault != nil || workflows[sc.WF].Fast {
+			// first step of a history chain: only has to come back (C08/C09 judge these runs themselves)
+			if r.Status != "returned" && r.Status != "timeout" {
+				c.Violation(fmt.Sprintf("%s:%s:%s", sc.WF, sc.Note, r.Status), "did not return normally: "+clip(r.Crash, 1200), "wf", sc)
+			}
+			continue
 		}
 		judgeRule(c, "C07", sc, r)
 		if c.NSamples() < 5 && nontriv && sc.ID%37 == 0 {
@@ -480,15 +539,16 @@ func runC08(c *ev.Ctx) {
 	var scns []Scn
 	var groups []*c08Group
 	id := 0
-	R := 10
+	R := 24
 	if c.Thorough() {
-		R = 100
+		R = 120
 	}
 	delays := []string{"none", "gosched", "sleep", "mixed"}
 	procs := []int{1, 2, 4, 16}
 	cpuSets := []int{0, 1, 2, 3} // 0 = all CPUs
 	cpuOf := map[int]int{}
 	raceOf := map[int]bool{}
+	var preSteps []int
 	for _, fname := range []string{"PeriodFast", "PowerOnFast", "FactoryFast"} {
 		w := workflows[fname]
 		streams := c08Streams(seed, w, c.Thorough())
@@ -526,6 +586,30 @@ func runC08(c *ev.Ctx) {
 					Delay: mon.DelayPlan{Mode: delays[k%4], Seed: gen.Mix(seed, uint64(id))}, Procs: procs[(k/4)%4], Note: fmt.Sprintf("%s rep%d", note, k)}
 				cpuOf[id] = cpuSets[(k/2+si)%4]
 				raceOf[id] = k%5 == 4
+				if k%6 == 5 {
+					// history: a failing / faulting run of some Fast workflow first, in the same process
+					pre := Scn{ID: id, WF: []string{"PeriodFast", "PowerOnFast", "PeriodFast", "FactoryFast"}[(k/6+si)%4], Stub: true, Chunk: mon.ChunkPlan{Kind: "whole"}, Chain: fmt.Sprintf("c08chain%d", id), Note: "history pre-step"}
+					pw := workflows[pre.WF]
+					pm := baseMatrix(gen.NewRng(uint64(id)), pw.S, pw.Items)
+					for i := 0; i < pw.Items; i++ {
+						for j := range pm {
+							pm[j][i] = mon.Cell{Pass: false, Q: 0.999}
+						}
+					}
+					pre.Stream = Stream{Kind: "matrix", Seed: uint64(id), Matrix: pm}
+					if (k/6)%2 == 1 {
+						pre.Fault = &mon.FaultPlan{Offset: int64(pw.B*3 + 5), Kind: "custom", Sticky: true}
+					}
+					cpuOf[pre.ID] = cpuOf[id]
+					raceOf[pre.ID] = raceOf[id]
+					id++
+					sc.ID = id
+					sc.Chain = pre.Chain
+					cpuOf[id] = cpuOf[pre.ID]
+					raceOf[id] = raceOf[pre.ID]
+					scns = append(scns, pre)
+					preSteps = append(preSteps, pre.ID)
+				}
 				scns = append(scns, sc)
 				g.fast = append(g.fast, id)
 			}
@@ -578,7 +662,7 @@ func runC08(c *ev.Ctx) {
 			if p.cpus > 0 {
 				par = 2
 			}
-			ch <- pr{p, runScenarios(list, runOpts{Race: p.race, CPUs: p.cpus, Parallel: par, PerScn: per, Label: fmt.Sprintf("c08-c%d-r%v", p.cpus, p.race)})}
+			ch <- pr{p, runScenarios(list, runOpts{Race: p.race, CPUs: p.cpus, Parallel: par, PerScn: per, Label: fmt.Sprintf("c08-c%d-r%v", p.cpus, p.race), Shuffle: gen.Mix(seed, 80808, uint64(p.cpus))})}
 		}(p, list)
 	}
 	for range parts {
@@ -591,6 +675,12 @@ func runC08(c *ev.Ctx) {
 	for _, s := range scns {
 		byID[s.ID] = s
 	}
+	for _, pid := range preSteps {
+		if r := res[pid]; r != nil && r.Status != "returned" && r.Status != "timeout" {
+			c.Violation(fmt.Sprintf("%s:history pre-step:%s", byID[pid].WF, r.Status), "did not return normally: "+clip(r.Crash, 1200), "wf", byID[pid])
+		}
+	}
+	c.Count("history_chains", int64(len(preSteps)))
 	sigs := map[string]bool{}
 	workersSeen := map[int]bool{}
 	for _, g := range groups {
@@ -784,7 +874,7 @@ func runC09(c *ev.Ctx) {
 	// plain pass first: hangs are decided there by the runtime's deadlock detector (which does not
 	// fire under -race); workflows that hung are left out of the race pass, whose watchdog could
 	// only say "inconclusive" after a long wait.
-	res := runScenarios(plain, runOpts{Parallel: 12, PerScn: time.Second, Label: "c09"})
+	res := runScenarios(plain, runOpts{Parallel: 12, PerScn: time.Second, Label: "c09", Shuffle: gen.Mix(seed, 90909)})
 	hungWF := map[string]bool{}
 	for _, s := range plain {
 		if r := res[s.ID]; r != nil && (r.Status == "deadlock" || r.Status == "hang" || r.Status == "timeout") {
@@ -800,7 +890,7 @@ func runC09(c *ev.Ctx) {
 		}
 		race2 = append(race2, s)
 	}
-	for k, v := range runScenarios(race2, runOpts{Race: true, Parallel: 8, PerScn: time.Second, Label: "c09r"}) {
+	for k, v := range runScenarios(race2, runOpts{Race: true, Parallel: 8, PerScn: time.Second, Label: "c09r", Shuffle: gen.Mix(seed, 90910)}) {
 		res[k] = v
 	}
 	for _, sc := range scns {
@@ -974,9 +1064,9 @@ func runC10(c *ev.Ctx) {
 	}
 	rch := make(chan map[int]*Res, 1)
 	go func() {
-		rch <- runScenarios(race, runOpts{Race: true, Parallel: 6, PerScn: 15 * time.Second, Label: "c10r"})
+		rch <- runScenarios(race, runOpts{Race: true, Parallel: 6, PerScn: 15 * time.Second, Label: "c10r", Shuffle: gen.Mix(seed, 101011)})
 	}()
-	res := runScenarios(plain, runOpts{Parallel: 10, PerScn: 5 * time.Second, Label: "c10"})
+	res := runScenarios(plain, runOpts{Parallel: 10, PerScn: 5 * time.Second, Label: "c10", Shuffle: gen.Mix(seed, 101010)})
 	for k, v := range <-rch {
 		res[k] = v
 	}
@@ -1194,7 +1284,7 @@ func runC14(c *ev.Ctx) {
 	go func() {
 		hch <- runScenarios(heavy, runOpts{Parallel: 8, PerScn: 300 * time.Second, Label: "c14h"})
 	}()
-	res := runScenarios(scns, runOpts{Parallel: 8, PerScn: 2 * time.Second, Label: "c14"})
+	res := runScenarios(scns, runOpts{Parallel: 8, PerScn: 2 * time.Second, Label: "c14", Shuffle: gen.Mix(seed, 141414)})
 	for k, v := range <-hch {
 		res[k] = v
 	}
